@@ -69,9 +69,22 @@ def run_rtree(run, focus):
         cfg = os.path.join(out, "MC_%d_%d.cfg" % (a, b))
         maxops = 0 if pool != "PoolB" else 11
         mc_cfg(cfg, a, b, pool, mult, focus, maxops=maxops)
-        r = run.tlc("mc_%d_%d_%s" % (a, b, pool), SPEC, "RTreeMC", cfg, workers=8, timeout=3000,
-                    extra=["-coverage", "1"] if not quick and pool == "PoolA" and a == 2 and b == 4 else None)
-        run.coverage_zeros(r)
+        run.tlc("mc_%d_%d_%s" % (a, b, pool), SPEC, "RTreeMC", cfg, workers=8, timeout=3000)
+    # vacuity self-tests: the bounded model must reach three levels, collapse its root, and refill after draining
+    # (TLC's -coverage exhausts the heap on this module before the first state, so reachability is asked for directly)
+    wit = [("NeverThreeLevels", "INVARIANT", (2, 4, "PoolC", "MultC", 0)), ("NeverCollapses", "PROPERTY", (2, 4, "Pool5", "Mult5", 0)),
+           ("NeverRefilled", "PROPERTY", (2, 4, "Pool5", "Mult5", 6))]
+    for (nm, kind, (a, b, pool, mult, maxops)) in wit:
+        cfg = os.path.join(out, "Wit_%s.cfg" % nm)
+        with open(cfg, "w") as f:
+            f.write("SPECIFICATION %s\nCHECK_DEADLOCK FALSE\nCONSTANTS\n  MinC = %d\n  MaxC = %d\n  Boxes <- %s\n  Mult <- %s\n" %
+                    ("FillSpec" if pool == "PoolC" else "Spec", a, b, pool, mult))
+            f.write("  Queries <- MCQueries\n  NNPts <- MCNNPts\n  Ks <- MCKs\n  MaxOps = %d\n%s %s\n" % (maxops, kind, nm))
+        sim = dict(simulate="num=400", depth=16, workers=1) if pool == "PoolC" else dict(workers=8)
+        r = run.tlc("wit_" + nm, SPEC, "RTreeMC", cfg, timeout=1200, expect_violation=True, count=False, **sim)
+        if not r["violated"]:
+            raise vlib.MachineryError("vacuity self-test failed: the bounded R-tree model never violates %s" % nm)
+    run.extra["reachability_witnesses"] = [w[0] for w in wit]
     # ---- behaviours: cover of (operation, resulting state) pairs + simulation walks
     cases = []
     gens = [(2, 4, "Pool5", "Mult5")] if quick else [(2, 4, "PoolA", "MultA"), (2, 5, "Pool5", "Mult5")]
